@@ -24,7 +24,7 @@ from pyvc.symex import Executor
 from pyvc.values import NONE, V, VBool, VExt, VFunc, VInt, VReal, VRef, VSeq, VStr, VTuple, VType, VUnk, ext_sort, fresh_name
 from pyvc.verify import Maker, p_bool, p_ext, p_int, p_obj, p_str, p_unk
 from contracts import etree_model as ET
-from contracts.symlist import SymListMixin, is_max, seq_eq, take, vite, seq_of_items, OVER
+from contracts.symlist import SymListMixin, is_max, seq_eq, take, vite, seq_of_items, concat, OVER
 
 DT = "sharepoint2text/parsing/extractors/data_types.py"
 PPTX = "sharepoint2text/parsing/extractors/ms_modern/pptx_extractor.py"
@@ -145,6 +145,51 @@ class C13Executor(SymListMixin, ET.ETreeMixin, Executor):
             return None
         rng = z3.And(k >= 0, k < s.length)
         return VBool(z3.Exists([k], z3.And(rng, e.t)) if is_any else z3.ForAll([k], z3.Implies(rng, e.t)))
+
+    # ---- round 7 (iterate_tables): the values a generator yields, as a symbolic sequence in the ghost state (pack-local; the engine's
+    # own `yielded` list cannot carry a symbolic number of yields).  Active only when the contract's parameter maker created the ghost.
+    def on_yield(self, st, v, node):
+        cur = st.ghost.get(YSEQ)
+        if cur is not None:
+            st.ghost[YSEQ] = seq_append(cur, yield_key(st, v))
+        return super().on_yield(st, v, node)
+
+    def e_YieldFrom(self, n, st):
+        if st.ghost.get(YSEQ) is None:
+            return super().e_YieldFrom(n, st)
+        out = []
+        for (s, v) in self.ev(n.value, st):
+            items = self.concrete_items(s, v)
+            if items is not None:
+                s.yielded = s.yielded + items
+                for x in items:
+                    s.ghost[YSEQ] = seq_append(s.ghost[YSEQ], yield_key(s, x))
+            else:
+                self.on_yield_from(s, v, n)
+            out.append((s, NONE))
+        return out
+
+    def on_yield_from(self, st, gen, node):
+        cur = st.ghost.get(YSEQ)
+        src = self.as_seq(st, gen) if cur is not None and isinstance(gen, (VSeq, VRef)) else None
+        if src is not None and getattr(src, "tag", None) is None:
+            # `yield from <sequence>`: every element of the sequence, in order
+            mapped = VSeq(src.length, lambda i, src=src, st=st: yield_key(st, src.elem(i)), "C13Table")
+            n0 = z3.simplify(cur.length)
+            st.ghost[YSEQ] = mapped if z3.is_int_value(n0) and n0.as_long() == 0 else concat(cur, mapped)
+            return None
+        if cur is not None:
+            raise_unsupported(f"{self.loc(node)} yield from a generator of unknown length (iterate_tables contract)")
+        return super().on_yield_from(st, gen, node)
+
+    def havoc_loop_state(self, st, body, spec, extra_names=()):
+        super().havoc_loop_state(st, body, spec, extra_names)
+        if st.ghost.get(YSEQ) is not None and self._has_yield(body):
+            from contracts.symlist import fresh_seq
+            val, wf = fresh_seq(("list", ("ext", "C13Table")), "yielded")
+            st.ghost[YSEQ] = val
+            for c in wf:
+                st.assume(c)
 
     def truth(self, st, v):
         # an abstract cell value may be falsy (None, 0, False, '') -- independent of being an empty cell (0 is data, ' ' is not)
@@ -779,6 +824,111 @@ def value_contracts(reg):
             raises=[], inline=True,
             note="number -> int when integral, bool, date -> ISO text (statement); as_string=False for _get_cell_value"))
     return out
+
+
+# ============================================================ iterate_tables (round 7) ==
+YSEQ = "c13!yielded"
+TABLE = ext_sort("C13Table")                                  # a stored table (grid or sheet object) of a content object
+UNITS = ext_sort("C13Unit")                                   # a unit (slide, page, chapter) that stores tables
+N_STORED = z3.Int("n_stored_tables")
+STORED = z3.Function("stored_table", I, TABLE)
+N_UNITS = z3.Int("n_units")
+UNIT_AT = z3.Function("stored_unit", I, UNITS)
+U_NT = z3.Function("unit_ntables", UNITS, I)
+U_T = z3.Function("unit_table", UNITS, I, TABLE)
+NOT_A_TABLE = z3.Const("yielded_something_else", TABLE)
+
+
+def raise_unsupported(msg):
+    from pyvc.symex import Unsupported
+    raise Unsupported(msg)
+
+
+def seq_append(s: VSeq, x):
+    n = z3.simplify(s.length)
+    if z3.is_int_value(n) and n.as_long() == 0:
+        return seq_of_items([x])
+    return VSeq(s.length + 1, lambda i, s=s, x=x: vite(i < s.length, s.elem(i), x), "sym")
+
+
+def yield_key(st, v):
+    """what a yielded value stands for: the stored table itself, or the stored grid inside a fresh TableData(data=grid)"""
+    if isinstance(v, VExt) and v.sort == "C13Table":
+        return VExt("C13Table", WRAPPED(v.t, z3.BoolVal(False)))
+    if isinstance(v, VRef):
+        o = st.obj(v.ref)
+        d = o.data.get("data") if o.kind == "obj" and o.cls == "TableData" and isinstance(o.data, dict) else None
+        if isinstance(d, VExt) and d.sort == "C13Table":
+            return VExt("C13Table", WRAPPED(d.t, z3.BoolVal(True)))
+    raise_unsupported(f"iterate_tables yields {v!r}: neither a stored table nor TableData(data=<stored grid>)")
+
+
+WRAPPED = z3.Function("yielded_table", TABLE, B, TABLE)       # (stored item, wrapped in a fresh TableData?) -- injective by construction below
+
+
+def iterate_tables_contracts(reg):
+    """`iterate_tables()` of every content class that stores tables: the generator yields EVERY stored table exactly once, in storage order
+    (units in order, tables of a unit in order), none invented -- for any number of tables / units (loop invariant: the yielded sequence is
+    the prefix of the stored sequence).  Grid-storing classes yield TableData(data=grid), sheet-storing classes the sheet object itself;
+    which of the two a class does is read from its field annotations (list[list[list..]] = grids)."""
+    m = loader.module(DT)
+    out = []
+    for q, fnode in sorted(m.functions.items()):
+        if not q.endswith(".iterate_tables") or q.count(".") != 1:
+            continue
+        cls = q.split(".")[0]
+        fors = sorted([n for n in ast.walk(fnode) if isinstance(n, (ast.For, ast.While))], key=lambda n: (n.lineno, n.col_offset))
+        if len(fors) > 1:
+            continue            # units with tables (nested loops): bounded walker w_iter only
+        flds = sorted({n.attr for n in ast.walk(fnode) if isinstance(n, ast.Attribute) and isinstance(n.value, ast.Name) and n.value.id == "self"
+                       and _field_is_grid_list(m, cls, n.attr) is not None})
+        if len(flds) != 1:
+            continue            # no stored tables (`yield from ()`), or something this contract does not describe
+        fld = flds[0]
+        wrapped = _field_is_grid_list(m, cls, fld)
+
+        def p_stored():
+            def mk(ex, st, name):
+                st.ghost[YSEQ] = seq_of_items([])
+                alts = [(N_STORED >= 0, VSeq(N_STORED, lambda k: VExt("C13Table", STORED(k)), "C13Table"))]
+                for n in (0, 1, 2):
+                    ref = st.alloc(HeapObj("list", [VExt("C13Table", STORED(z3.IntVal(k))) for k in range(n)], fresh=False), ex.refs)
+                    alts.append((N_STORED == n, VRef(ref)))
+                return alts
+            return Maker(mk, desc="list of stored tables, every length")
+
+        def spec(wrapped=wrapped):
+            return VSeq(N_STORED, lambda k: VExt("C13Table", WRAPPED(STORED(k), z3.BoolVal(wrapped))), "C13Table")
+
+        def post(c, spec=spec):
+            got = c.st.ghost.get(YSEQ)
+            return seq_eq(got, spec()) if isinstance(got, VSeq) else z3.BoolVal(False)
+
+        def inv(lc, spec=spec):
+            got = lc.st.ghost.get(YSEQ)
+            return seq_eq(got, take(spec(), lc.i)) if isinstance(got, VSeq) else z3.BoolVal(False)
+        out.append(FnContract(target=f"{DT}::{q}", params=[("self", p_obj(cls, {fld: p_stored()}))],
+                              ensures=[("yields-every-stored-table-once-in-order-none-invented", post)], raises=[],
+                              loops={0: LoopSpec(inv=inv, label="stored-tables")} if fors else {},
+                              note=f"any number of stored tables in self.{fld}; yields " + ("TableData(data=grid)" if wrapped else "the stored table object")))
+    return out
+
+
+def _field_is_grid_list(m, cls, fld):
+    """True: the field stores grids (list[list[list[..]]]) that must be wrapped in TableData; False: it stores table objects; None: unknown"""
+    cnode = m.classes.get(cls) if hasattr(m, "classes") else None
+    if cnode is None:
+        cnode = next((n for n in ast.walk(m.tree) if isinstance(n, ast.ClassDef) and n.name == cls), None) if hasattr(m, "tree") else None
+    if cnode is None:
+        return None
+    for stmt in cnode.body:
+        if isinstance(stmt, ast.AnnAssign) and isinstance(stmt.target, ast.Name) and stmt.target.id == fld:
+            txt = ast.unparse(stmt.annotation).replace("typing.", "").replace("List", "list")
+            if txt.lower().startswith("list[list[list["):
+                return True
+            if txt.lower().startswith("list[") and not txt.lower().startswith("list[list"):
+                return False
+    return None
 
 
 # ============================================================ xlsx trimming (round 7) ==
@@ -1448,6 +1598,7 @@ def contracts(reg):
     out += dim_contracts(reg)
     out += value_contracts(reg)
     out += _guarded(xlsx_trim_contracts, reg)
+    out += _guarded(iterate_tables_contracts, reg)
     out += pptx_contracts(reg)
     out += _guarded(docx_contracts, reg)
     out += rtf_contracts(reg)
